@@ -488,8 +488,144 @@ def est_classify(sc):
     return out
 
 
+# --------------------------------------------------------------------------------------
+# the registry as a Hypothesis rule-based state machine (operations in any order, model = dict of lists)
+# --------------------------------------------------------------------------------------
+_LAST_TRACE = {}
+
+
+def make_machine():
+    from hypothesis.stateful import RuleBasedStateMachine, initialize, invariant, precondition, rule
+
+    msgs, uros, simpy = mods()
+    TYPES_ = [msgs.Imu, msgs.Mag, msgs.Attitude, msgs.EstimatorStatus]
+
+    class BusMachine(RuleBasedStateMachine):
+        def __init__(self):
+            super().__init__()
+            self.core = uros.Core()
+            self.pubs = {}      # topic -> (publisher, type)
+            self.subs = {}      # topic -> list of received lists (real)
+            self.model = {}     # topic -> list of expected received lists (model)
+            self.seq = 0
+            self.trace = []
+            self.nodes = []     # (params list, follows, names)
+            self.truth = {}
+            self.params_ready = False
+            _LAST_TRACE["trace"] = self.trace
+
+        @rule(ti=st.integers(0, 3), ty=st.integers(0, 3))
+        def add_publisher(self, ti, ty):
+            name = "topic%d" % ti
+            if name in self.pubs or self.params_ready:
+                return
+            self.trace.append(("add_publisher", name, TYPES_[ty].__name__))
+            self.pubs[name] = (uros.Publisher(self.core, name, TYPES_[ty]), TYPES_[ty])
+            self.subs.setdefault(name, [])
+            self.model.setdefault(name, [])
+
+        @rule(ti=st.integers(0, 3))
+        def add_subscriber(self, ti):
+            name = "topic%d" % ti
+            if name not in self.pubs:
+                return
+            self.trace.append(("add_subscriber", name))
+            got = []
+            self.subs[name].append(got)
+            self.model[name].append([])
+            uros.Subscriber(self.core, name, self.pubs[name][1], lambda m, got=got: got.append(float(m.data["time"])))
+
+        @rule(ti=st.integers(0, 3), reuse=st.booleans())
+        def publish(self, ti, reuse):
+            name = "topic%d" % ti
+            if name not in self.pubs:
+                return
+            self.seq += 1
+            self.trace.append(("publish", name, self.seq))
+            pub, ty = self.pubs[name]
+            m = ty()
+            m.data["time"] = float(self.seq)
+            for lst in self.model[name]:
+                lst.append(float(self.seq))
+            pub.publish(m)
+
+        @rule(ti=st.integers(0, 3))
+        def publish_wrong_type(self, ti):
+            name = "topic%d" % ti
+            if name not in self.pubs:
+                return
+            pub, ty = self.pubs[name]
+            other = [t for t in TYPES_ if t is not ty][0]
+            self.trace.append(("publish_wrong_type", name, other.__name__))
+            try:
+                pub.publish(other())
+            except Exception:
+                return
+            raise Violation("a %s message was accepted on topic %s of type %s" % (other.__name__, name, ty.__name__), trace=list(self.trace))
+
+        @rule(n=st.integers(1, 3), follows=st.booleans(), v=st.floats(-10, 10))
+        def add_node(self, n, follows, v):
+            if self.params_ready or len(self.nodes) >= 3:
+                return
+            ni = len(self.nodes)
+            self.trace.append(("add_node", ni, n, follows))
+            plist = [uros.Param(self.core, "node%d/p%d" % (ni, k), v + k, "f8") for k in range(n)]
+            for k in range(n):
+                self.truth["node%d/p%d" % (ni, k)] = v + k
+            if follows:
+                uros.Subscriber(self.core, "params", msgs.Params, lambda m, plist=plist: [p.update() for p in plist])
+            self.nodes.append((plist, follows))
+
+        @precondition(lambda self: not self.params_ready)
+        @rule()
+        def init_params(self):
+            self.trace.append(("init_params",))
+            self.core.init_params()
+            self.params_ready = True
+
+        @precondition(lambda self: self.params_ready and len(self.truth) > 0)
+        @rule(i=st.integers(0, 8), v=st.floats(-100, 100))
+        def set_param(self, i, v):
+            name = sorted(self.truth)[i % len(self.truth)]
+            self.trace.append(("set_param", name, v))
+            self.truth[name] = v
+            self.core.set_param(name, v)
+            for plist, follows in self.nodes:
+                for p in plist:
+                    if follows and float(p.get()) != self.truth[p.name]:
+                        raise Violation("after the broadcast a node that follows the params topic sees %s = %r, core value %r" % (
+                            p.name, p.get(), self.truth[p.name]), trace=list(self.trace))
+
+        @invariant()
+        def delivered_exactly_once_in_order(self):
+            for name in self.subs:
+                for got, want in zip(self.subs[name], self.model[name]):
+                    if got != want:
+                        raise Violation("subscriber of %s received %s, model expects %s" % (name, got, want), trace=list(self.trace))
+
+    return BusMachine
+
+
+def check_machine(case):
+    import hypothesis
+    from hypothesis import HealthCheck, settings
+    from hypothesis.stateful import run_state_machine_as_test
+
+    M = make_machine()
+    try:
+        run_state_machine_as_test(
+            hypothesis.seed(case["seed"])(M),
+            settings=settings(max_examples=case["examples"], stateful_step_count=40, deadline=None, database=None,
+                              suppress_health_check=list(HealthCheck), report_multiple_bugs=False, print_blob=False))
+    except Violation as v:
+        v.details["shrunk_trace"] = list(_LAST_TRACE.get("trace", []))
+        raise
+
+
 def build(tier):
     cells = [
+        Cell("bus/state_machine", st.integers(1, 2**30).map(lambda s_: {"seed": s_, "examples": 60 if tier == "quick" else 1500}),
+             check_machine, lambda c: True, None, quick=1, thorough=4, shrink=False, shards_thorough=4),
         Cell("bus/scenario", scenario(), check_bus, bus_nontrivial, bus_classify, quick=500, thorough=12000,
              build=lambda: mods()),
         Cell("estimator/scheduling", est_scenario(), check_estimator, est_nontrivial, est_classify, quick=500, thorough=12000),
@@ -501,6 +637,9 @@ def build(tier):
             "schedules are those expressible in simpy's deterministic kernel (no threads); the reference model records publishes "
             "in execution order, and for logger rows a message published at exactly the row time may or may not be included",
             "delivery is owed to the subscribers registered at the time of the publish",
+            "bus/state_machine: a hypothesis.stateful RuleBasedStateMachine over the registry API (add publisher / subscriber / node, "
+            "publish, wrong-type publish, init_params, set_param) with a dict-of-lists model and an invariant after every step; its "
+            "evaluations are counted as one per campaign in the cell table (60 / 1500 machine runs of up to 40 steps each)",
             "estimator invariants are stated in message time (stamps); the minimum period in force is the value last broadcast "
             "before the later of two successive corrections",
         ],
